@@ -2,7 +2,7 @@ import PhyModel.Proofs.StoreCache_Gen
 /-! C06, generic layer: the cache invariant does not look at graph indices or names.  Payload maps
 that keep `dps`, `p`, `r` (`mapRecs`), and the counter-threading renumberings `reindex` / `relabelSF`
 (through the erasure `er`), preserve it. -/
-namespace PhyModel.Store
+namespace PhyModel.Store.C06
 open PhyModel
 
 theorem mapRecs_cons (g : NodeRec → NodeRec) (n : NodeRec) (k s : SF) :
@@ -117,4 +117,4 @@ theorem er_append : ∀ f g : SF, er (f.append g) = (er f).append (er g)
   | .nil, _ => rfl
   | .cons n k s, g => by simp only [SF.append, er_cons, er_append s g]
 
-end PhyModel.Store
+end PhyModel.Store.C06
